@@ -7,8 +7,7 @@ What is modelled, function by function:
 * `escGo/escapeDoc`      = `tdl._escape_docstring` (the `cnt` state machine, `lastindex` quirk)
 * `scanB`                = `tdl._bounded` on the concatenated remaining text
 * `fmtDoc`               = `tdl._format_docstring` (textwrap.dedent for space-indented text,
-                           `splitlines`, dropping a blank first/last line, re-indent, escape;
-                           the `lines[-1]` IndexError on a single blank line is kept)
+                           `split('\n')`, dropping a blank first/last line, re-indent, escape)
 * `Term/Val/...`         = the *constructed* objects (AVM with nested `_avm`, ConsList as
                            values+end, DiffList as values)
 * `setPath/mkAVM/mkCons` = `FeatureStructure.__setitem__`, `AVM(featvals)`, `ConsList(values,end)`
@@ -89,44 +88,37 @@ def splitNL : Str → List Str
 def isBlank (l : Str) : Bool := l.all (· == ' ')
 def leadSp (l : Str) : Nat := (l.takeWhile (· == ' ')).length
 
-def dropLastEmpty (ls : List Str) : List Str :=
-  match ls.getLast? with
-  | some [] => ls.dropLast
-  | _ => ls
-
-/-- `textwrap.dedent(doc).splitlines()` for text whose only white space is ' ' and '\n'. -/
+/-- `textwrap.dedent(doc).split('\n')` for text whose only white space is ' ' and '\n'. -/
 def dedentLines (doc : Str) : List Str :=
   let ls1 := (splitNL doc).map (fun l => if isBlank l then [] else l)
   let ind := (ls1.filter (fun l => !l.isEmpty)).map leadSp
   let margin := match ind with
     | [] => 0
     | m :: ms => ms.foldl min m
-  dropLastEmpty (ls1.map (fun l => l.drop margin))
+  ls1.map (fun l => l.drop margin)
 
 def joinLines (sep : Str) : List Str → Str
   | [] => []
   | [l] => l
   | l :: ls => l ++ sep ++ joinLines sep ls
 
-/-- the `lines` that `_format_docstring` re-indents; `indexError` is the `lines[-1]` on `[]`. -/
-def docLines (doc : Str) : Except Err (List Str) :=
+/-- the `lines` that `_format_docstring` re-indents: a blank first line and then a blank last
+line (if one is left) are dropped. -/
+def docLines (doc : Str) : List Str :=
   match dedentLines doc with
-  | [] => .ok []
+  | [] => []
   | l :: ls =>
     let ls1 := if isBlank l then ls else l :: ls
     match ls1.getLast? with
-    | none => .error .indexError
-    | some z => .ok (if isBlank z then ls1.dropLast else ls1)
+    | none => ls1
+    | some z => if isBlank z then ls1.dropLast else ls1
 
 def spaces (n : Nat) : Str := List.replicate n ' '
 
 /-- contents between the `"""` written by `_format_docstring(doc, indent)`. -/
-def fmtDoc (indent : Nat) (doc : Str) : Except Err Str :=
-  match docLines doc with
-  | .error e => .error e
-  | .ok ls =>
-    let ind := spaces indent
-    .ok (escapeDoc ('\n' :: ind ++ joinLines ('\n' :: ind) ls ++ '\n' :: ind))
+def fmtDoc (indent : Nat) (doc : Str) : Str :=
+  let ind := spaces indent
+  escapeDoc ('\n' :: ind ++ joinLines ('\n' :: ind) (docLines doc) ++ '\n' :: ind)
 
 /-! ## Objects -/
 
@@ -381,9 +373,9 @@ def toksAmp : Terms → List Tok
   | .nil => []
   | .cons t ts => .amp :: (toksTerm t ++ toksAmp ts)
 /-- one `feat value` entry as `AVM.features()` lists it: a bare AVM value with exactly one
-feature is passed through (`A.B x`), its docstring is not written. -/
+feature and no docstring (`AVM._is_notable`) is passed through (`A.B x`). -/
 def toksFeat (pre : List Str) (k : Str) : Val → List Tok
-  | .term (.avm _ (.cons k2 v2 .nil)) => toksFeat (pre ++ [k]) k2 v2
+  | .term (.avm none (.cons k2 v2 .nil)) => toksFeat (pre ++ [k]) k2 v2
   | v => pathToks (pre ++ [k]) ++ toksVal v
 def toksFeats : Feats → List Tok
   | .nil => []
@@ -553,8 +545,13 @@ deriving Repr
 
 def envTypeText (inst : Bool) : Str := if inst then ":instance".toList else ":type".toList
 
+/-- `re.sub(r'([) \\])', r'\\\1', characters)` in `_format_morphset` -/
+def escMorph : Str → Str
+  | [] => []
+  | c :: cs => if c = ')' ∨ c = ' ' ∨ c = '\\' then '\\' :: c :: escMorph cs else c :: escMorph cs
+
 def morphText (kind : Str) (var chars : Str) : Str :=
-  kind ++ " (".toList ++ var ++ ' ' :: chars ++ [')']
+  kind ++ " (".toList ++ var ++ ' ' :: escMorph chars ++ [')']
 
 def toksItem : Item → List Tok
   | .typedef id ts doc => .ident id :: .defop ":=".toList :: (toksTerms ts ++ (docTok doc ++ [.dot]))
@@ -577,15 +574,6 @@ def toksItem : Item → List Tok
 def Item.terms? : Item → Option Terms
   | .typedef _ ts _ | .addendum _ ts _ | .lexrule _ _ _ ts _ => some ts
   | _ => none
-
-/-- `format(item)` raises IndexError: a definition without terms (`parts[1]`), or a written
-docstring that is one blank line (`lines[-1]`). -/
-def formatErr (it : Item) : Option Err :=
-  if (match it.terms? with | some .nil => true | _ => false) then some .indexError
-  else if (toksItem it).any (fun t => match t with
-      | .doc d => (match docLines d with | .error _ => true | .ok _ => false)
-      | _ => false) then some .indexError
-  else none
 
 /-! ### letter-sets and wild-cards, character level -/
 
@@ -743,14 +731,9 @@ def canonVal : Val → Val
 def canonTerms : Terms → Terms
   | .nil => .nil
   | .cons t ts => .cons (canonTerm t) (canonTerms ts)
-/-- the value found under a feature after the round trip: a passed-through one-feature AVM
-comes back as a fresh AVM without docstring -/
-def canonFeat : Val → Val
-  | .term (.avm _ (.cons k2 v2 .nil)) => .term (.avm none (.cons k2 (canonFeat v2) .nil))
-  | v => canonVal v
 def canonFeats : Feats → Feats
   | .nil => .nil
-  | .cons k v fs => .cons k (canonFeat v) (canonFeats fs)
+  | .cons k v fs => .cons k (canonVal v) (canonFeats fs)
 def canonItems : Items → Items
   | .nil => .nil
   | .cons v vs => .cons (canonVal v) (canonItems vs)
@@ -845,40 +828,35 @@ def wfEnd (emp : Bool) : End → Bool
   | _ => true
 end
 
-/-- a feature value that is a one-term Conjunction holding a one-feature plain AVM (D4) -/
+/-- a feature value that is a one-term Conjunction holding a one-feature AVM without docstring
+(F44: written `A [ B x ]`, read back as a bare AVM, then written `A.B x`) -/
 def trivFeat : Val → Bool
-  | .conj (.cons (.avm _ (.cons _ _ .nil)) .nil) => true
-  | _ => false
-
-/-- a passed-through AVM carrying a docstring (D3) -/
-def hiddenDoc : Val → Bool
-  | .term (.avm (some _) (.cons _ _ .nil)) => true
+  | .conj (.cons (.avm none (.cons _ _ .nil)) .nil) => true
   | _ => false
 
 mutual
-/-- no feature value anywhere is `trivFeat` (if `doc` also: nor `hiddenDoc`) -/
-def cleanTerm (doc : Bool) : Term → Bool
-  | .avm _ fs => cleanFeats doc fs
-  | .cons _ vs e => cleanItems doc vs && cleanEnd doc e
-  | .diff _ vs => cleanItems doc vs
+/-- no feature value anywhere is `trivFeat` -/
+def cleanTerm : Term → Bool
+  | .avm _ fs => cleanFeats fs
+  | .cons _ vs e => cleanItems vs && cleanEnd e
+  | .diff _ vs => cleanItems vs
   | _ => true
-def cleanVal (doc : Bool) : Val → Bool
-  | .term t => cleanTerm doc t
-  | .conj ts => cleanTerms doc ts
-def cleanTerms (doc : Bool) : Terms → Bool
+def cleanVal : Val → Bool
+  | .term t => cleanTerm t
+  | .conj ts => cleanTerms ts
+def cleanTerms : Terms → Bool
   | .nil => true
-  | .cons t ts => cleanTerm doc t && cleanTerms doc ts
-def cleanFeats (doc : Bool) : Feats → Bool
+  | .cons t ts => cleanTerm t && cleanTerms ts
+def cleanFeats : Feats → Bool
   | .nil => true
-  | .cons _ v fs => !trivFeat v && !(doc && hiddenDoc v) && cleanVal doc v && cleanFeats doc fs
-def cleanItems (doc : Bool) : Items → Bool
+  | .cons _ v fs => !trivFeat v && cleanVal v && cleanFeats fs
+def cleanItems : Items → Bool
   | .nil => true
-  | .cons v vs => cleanVal doc v && cleanItems doc vs
-def cleanEnd (doc : Bool) : End → Bool
-  | .dotted v => cleanVal doc v
+  | .cons v vs => cleanVal v && cleanItems vs
+def cleanEnd : End → Bool
+  | .dotted v => cleanVal v
   | _ => true
 end
-
 
 /-! ## The layout stage of `format`: every docstring is replaced by its formatted contents
 (`_format_docstring`; the indentation is taken as 0 — the harness removes the real indentation
@@ -921,12 +899,8 @@ def mapDocItem (f : Str → Str) : Item → Item
   | .lexrule id a pats ts doc => .lexrule id a pats (mapDocTerms f ts) (mapDocOpt f doc)
   | it => it
 
-/-- formatted contents at indentation 0 (a docstring that cannot be formatted is left alone:
-`formatErr` has rejected the item if it is one that is written) -/
-def layoutDoc (d : Str) : Str :=
-  match fmtDoc 0 d with
-  | .ok c => c
-  | .error _ => d
+/-- formatted contents at indentation 0 -/
+def layoutDoc (d : Str) : Str := fmtDoc 0 d
 
 def layoutItem : Item → Item := mapDocItem layoutDoc
 
